@@ -57,7 +57,7 @@ class SVD:
             solver=self.solver,
             random_state=self.random_state,
             is_complex=self.is_complex,
-            **self.solver_kwargs,
+            solver_kwargs=self.solver_kwargs,
         )
         U, s, V = xr.apply_ufunc(
             svd.fit_transform,
